@@ -705,11 +705,12 @@ pub fn launcher_k<K: Kind>(args: &[String]) -> i32 {
     }
     // 2b. small-scope sweep (thorough tier)
     let mut sweep_info = serde_json::json!(null);
-    // C11's fault enumeration is cheap: the quick tier runs every 8th case of it
-    // (phase chosen by the seed), the thorough tier all of it
-    let quick_c11 = id == "C11" && tier == Tier::Quick && arg(args, "--sweep").is_none();
-    let stride: u64 = if quick_c11 { 8 } else { 1 };
-    let do_sweep = SWEEP_PROPS.contains(&id.as_str()) && (tier == Tier::Thorough || quick_c11 || arg(args, "--sweep").is_some()) && !args.iter().any(|a| a == "--no-sweep");
+    // the quick tier runs a slice of the sweep (phase chosen by the seed): every
+    // 8th case of C11's fault enumeration, every 48th case of the small-scope
+    // sweep; the thorough tier runs all of it
+    let quick_slice = tier == Tier::Quick && arg(args, "--sweep").is_none();
+    let stride: u64 = if !quick_slice { 1 } else if id == "C11" { 8 } else { 48 };
+    let do_sweep = SWEEP_PROPS.contains(&id.as_str()) && !args.iter().any(|a| a == "--no-sweep");
     if do_sweep {
         let limit = arg(args, "--sweep").and_then(|s| s.parse::<u64>().ok()).unwrap_or(u64::MAX);
         let mut kids = vec![];
